@@ -272,6 +272,69 @@ def gen_rr_stress(rnd, cid, cap, nins):
     return lines
 
 
+def gen_exhaustive(kind):
+    """every sequence of length <= 3 over a 13-18 letter alphabet, and of length 4 over a 7 letter core
+    alphabet, for capacities 1 and 2 (thorough tier); 'tick' letters move the clock past the short deadline / tick"""
+    import itertools
+    kd = KID[kind]
+    timed = kind in TTL or kind == "lfuda"
+    pk = kind in PEEK
+    def letters(full):
+        L = [("insert", 1, 3), ("insert", 2, 3), ("insert", 3, 3), ("erase", 1), ("find", 1, 0), ("find", 2, 0)]
+        if timed:
+            L.append(("tick",))
+        if full:
+            L += [("insert", 1, 1), ("insert", 1, 2), ("erase", 2), ("irange",), ("frange",)]
+            if pk:
+                L.append(("find", 1, 1))
+            if kind in ("lfu", "lfuda"):
+                L.append(("find_use", 1, 0))
+            if kind == "lfuda":
+                L.append(("dyn_age",))
+            if kind in TTL:
+                L.append(("clean",))
+            if kind == "utlru":
+                L += [("update_ttl", 1), ("update_ttl", 50), ("clear",)]
+            if kind == "ut_map":
+                L.append(("clear",))
+        return L
+    n = 0
+    for cap in (1, 2):
+        for (full, length) in ((True, 3), (False, 5)):
+            for seq in itertools.product(letters(full), repeat=length):
+                if not full and len(set(seq)) == 1:
+                    continue
+                n += 1
+                now = 1000 * MS
+                v = 10
+                lines = ["case %s-x%d %d 0 0 1 %d 5 1 1 1 4 1 2 3 4" % (kind, n, kd, cap)]
+                for a in seq:
+                    if a[0] == "tick":
+                        now += 5 * MS + 1
+                        lines.append("probe %d" % now)
+                        continue
+                    v += 1
+                    vv = 1 if kind == "ut_set" else v
+                    if a[0] == "insert":
+                        ttl = 5 if kind == "tlru" and a[1] != 3 else (50 if kind == "tlru" else 0)
+                        lines.append("op %d insert %d %d %d %d" % (now, ttl, a[1], vv, a[2]))
+                    elif a[0] == "erase":
+                        lines.append("op %d erase %d" % (now, a[1]))
+                    elif a[0] in ("find", "find_use"):
+                        lines.append("op %d %s %d %d" % (now, a[0], a[1], a[2]))
+                    elif a[0] == "irange":
+                        lines.append("op %d insert_range 3 2 %d 2 %d %d 3 %d" % (now, 5 if kind == "tlru" else 0, vv, 5 if kind == "tlru" else 0, vv))
+                    elif a[0] == "frange":
+                        lines.append("op %d find_range 0 2 1 3" % now)
+                    elif a[0] == "update_ttl":
+                        lines.append("op %d update_ttl %d" % (now, a[1]))
+                    else:
+                        lines.append("op %d %s" % (now, a[0]))
+                    lines.append("probe %d" % now)
+                lines.append("end")
+                yield lines
+
+
 def main():
     ap = argparse.ArgumentParser()
     ap.add_argument("--seed", type=int, default=1)
@@ -281,7 +344,18 @@ def main():
     ap.add_argument("--no-ttl0", action="store_true")
     ap.add_argument("--out", required=True)
     ap.add_argument("--stats", default=None)
+    ap.add_argument("--exhaustive", action="store_true")
     a = ap.parse_args()
+    if a.exhaustive:
+        n = 0
+        with open(a.out, "w") as f:
+            for lines in gen_exhaustive(a.kind):
+                n += 1
+                f.write("\n".join(lines) + "\n")
+        if a.stats:
+            with open(a.stats, "w") as f:
+                json.dump({"kind": a.kind, "exhaustive_cases": n, "ops": {}, "caps": {"1": 0, "2": 0}, "range_len": {}, "nops": 0, "ttl0_cases": 0, "cases": n, "seed": 0}, f)
+        return
     rnd = random.Random("%d/%s" % (a.seed, a.kind))
     stats = {"kind": a.kind, "seed": a.seed, "cases": a.n, "ops": {}, "caps": {}, "range_len": {}, "nops": 0,
              "ttl0_cases": 0}
